@@ -2004,7 +2004,7 @@ sexp sexp_string_cmp_op (sexp ctx, sexp self, sexp_sint_t n, sexp str1, sexp str
   len2 = sexp_string_size(str2);
   len = ((len1<len2) ? len1 : len2);
   if (ci==SEXP_FALSE)
-    diff = strncmp(sexp_string_data(str1), sexp_string_data(str2), len);
+    diff = memcmp(sexp_string_data(str1), sexp_string_data(str2), len);
   else
     diff = strncasecmp(sexp_string_data(str1), sexp_string_data(str2), len);
   if (! diff)
